@@ -37,6 +37,12 @@ Definition exec_order_tail : fdef :=
      f_body := [(SIf (XCompare (XName "order_spec") [(CIsNot, (XConst PNone))]) [(SForUnpack ["reverse"; "spec"] (XPrim "itertools.groupby:key" [(XPrim "builtins.reversed" [(XName "order_spec")]); (XPrim "operator.itemgetter" [(XConst (PInt 1))])]) [(SAssign (TName "indexes") (XPrim "builtins.reversed" [(XListComp (XIndex (XName "i") (XConst (PInt 0))) "i" (XName "spec") None)])); (SExpr (XMethod (TName "rows") "sort:key,reverse" [(XCall (XConst (PRef 1)) [] (Some (XName "indexes"))); (XName "reverse")]))])] []); (SAssign (TName "rows") (XListComp (XPrim "builtins.tuple" [(XListComp (XIndex (XName "row") (XName "i")) "i" (XName "result_indexes") None)]) "row" (XName "rows") None)); (SIf (XAttr (XName "query") "distinct") [(SAssign (TName "rows") (XCall (XConst (PRef 2)) [(XName "rows")] None))] []); (SIf (XCompare (XAttr (XName "query") "limit") [(CIsNot, (XConst PNone))]) [(SAssign (TName "rows") (XPrim "itertools.islice" [(XName "rows"); (XPrim "builtins.min" [(XAttr (XName "query") "limit"); (XConst (PInt 9223372036854775807))])]))] []); (SReturn (Some (XTuple [(XName "result_types"); (XPrim "builtins.list" [(XName "rows")])])))];
      f_gen := false |}.
 
+(* beanquery.query_execute.execute_query, EvalPivot branch: from `pivoted = []` to the return; parameters: rows, col1, columns, keys, col2, nother, other *)
+Definition exec_pivot_fill : fdef :=
+  {| f_params := ["rows"; "col1"; "columns"; "keys"; "col2"; "nother"; "other"];
+     f_body := [(SAssign (TName "pivoted") (XList [])); (SExpr (XMethod (TName "rows") "sort:key" [(XCall (XConst (PRef 1)) [(XName "col1")] None)])); (SForUnpack ["field1"; "group"] (XPrim "itertools.groupby:key" [(XName "rows"); (XPrim "operator.itemgetter" [(XName "col1")])]) [(SAssign (TName "outrow") (XBin OAdd (XList [(XName "field1")]) (XBin OMul (XList [(XConst PNone)]) (XBin OSub (XLen (XName "columns")) (XConst (PInt 1)))))); (SFor "row" (XName "group") [(SAssign (TName "index") (XBin OAdd (XBin OMul (XCallMethod (XName "keys") "index" [(XIndex (XName "row") (XName "col2"))]) (XName "nother")) (XConst (PInt 1)))); (SAssign (TName "outrow") (XPrim "stmt:setslice" [(XName "outrow"); (XName "index"); (XBin OAdd (XName "index") (XName "nother")); (XCall (XName "other") [(XName "row")] None)]))]); (SExpr (XMethod (TName "pivoted") "append" [(XPrim "builtins.tuple" [(XName "outrow")])]))]); (SReturn (Some (XTuple [(XName "columns"); (XName "pivoted")])))];
+     f_gen := false |}.
+
 Definition refs : list (nat * string) :=
   [(0%nat, "NULL"); (1%nat, "beanquery.query_execute.nullitemgetter"); (2%nat, "beanquery.query_execute.uniquify")].
 
